@@ -116,7 +116,9 @@ def summarise(pid, results, meta, tier, t0):
         elif r['verdict'] == 'undecided':
             undecided.append(r)
     # canaries must be refuted, covers must be sat ("proved" is used for "as expected")
-    bad_guard = [r for r in canaries + covers if r['verdict'] != 'proved']
+    # a canary that *verifies* (or a vacuous cover) is a checker fault; a canary the solver could not decide is only noted
+    bad_guard = [r for r in canaries + covers if r['verdict'] not in ('proved', 'undecided')]
+    weak_guard = [r for r in canaries + covers if r['verdict'] == 'undecided']
     os.makedirs(common.REPLAY_DIR, exist_ok=True)
     lines = []
     for r in printed_known:
@@ -134,6 +136,8 @@ def summarise(pid, results, meta, tier, t0):
         lines.append('UNDECIDED property=%s obligation=%s reason=%s' % (pid, r['id'], r['detail'][:300].replace('\n', ' ')))
     for r in bad_guard:
         lines.append('CHECKER-FAULT property=%s guard=%s verdict=%s %s' % (pid, r['id'], r['verdict'], r['detail'][:300].replace('\n', ' ')))
+    for r in weak_guard:
+        lines.append('NOTE property=%s guard=%s not decided by the solver (%s)' % (pid, r['id'], r['detail'][:120]))
     for r in errors:
         lines.append('CHECKER-FAULT property=%s task=%s %s' % (pid, r['id'], r['detail'][-1500:]))
     n_obl = len(proofs)
@@ -206,10 +210,10 @@ def summarise(pid, results, meta, tier, t0):
               pid, tier, n_obl, n_dis, cov['refuted'], len(undecided), cov['canaries_refuted'],
               len(canaries), cov['covers_sat'], len(covers), len(bounded), evals, len(printed_known),
               len(violations), time.time() - t0))
-    if errors or bad_guard:
-        return 3
     if violations:
         return 1
+    if errors or bad_guard:
+        return 3
     if undecided:
         return 2
     return 0
